@@ -7,6 +7,38 @@ mod util;
 use util::*;
 
 use blake_hash::{Blake224, Blake256, Blake384, Blake512, Digest};
+use std::panic::{catch_unwind, AssertUnwindSafe};
+
+/// digest bytes each variant must return (28/32/48/64): the Coq runner cuts the digest literal to this
+/// size, so the length actually returned is checked here (a wrong length is a direct failure)
+fn out_len(variant: u32) -> usize {
+    match variant {
+        224 => 28,
+        256 => 32,
+        384 => 48,
+        _ => 64,
+    }
+}
+
+/// every call into the implementation goes through here: None = it panicked (reported as an outcome of
+/// the case, with the case as failing input, instead of a harness crash)
+fn guarded<R>(f: impl FnOnce() -> R) -> Option<R> {
+    catch_unwind(AssertUnwindSafe(f)).ok()
+}
+
+/// byte i of every really streamed message is (i mod 251)
+const PAT_PERIOD: usize = 251;
+fn pat_base() -> Vec<u8> {
+    (0..PAT_PERIOD * 4200).map(|i| (i % PAT_PERIOD) as u8).collect()
+}
+fn pat_buf(base: &[u8], n: usize) -> Vec<u8> {
+    let mut v = Vec::with_capacity(n + base.len());
+    while v.len() < n {
+        v.extend_from_slice(base);
+    }
+    v.truncate(n);
+    v
+}
 
 fn digest(variant: u32, msg: &[u8]) -> Vec<u8> {
     // half of the cases reuse an object that has already produced a digest in place
@@ -111,27 +143,81 @@ fn hook_roundtrip(variant: u32, pre: &[u8], tail: &[u8]) -> Option<String> {
     }
 }
 
+/// state read back through the hook: chaining value as 8 big-endian words, t0, t1, buffered bytes
+#[derive(Clone, PartialEq, Eq)]
+struct St {
+    h: Vec<u8>,
+    t0: u128,
+    t1: u128,
+    buffered: Vec<u8>,
+}
+
+struct Streamed {
+    /// state after `n` bytes
+    at_n: St,
+    /// digest of the SAME streamed object continued with `tail` (None = panic)
+    same_object: Option<Vec<u8>>,
+    /// state of a clone of the streamed object continued with pattern bytes up to `upto` bytes in total
+    at_upto: Option<St>,
+}
+
 /// really stream `n` patterned bytes into a fresh hasher (update calls of varying sizes), read the
-/// state back through the hook: (chaining value as 8 big-endian words, t0, t1, buffered bytes)
-fn real_stream(variant: u32, n: u64) -> (Vec<u8>, u128, u128, Vec<u8>) {
+/// state back through the hook, then continue the same object with `tail` and finalise it
+fn real_stream(variant: u32, n: u64, tail: &[u8], upto: Option<u64>, base: &[u8]) -> Streamed {
     macro_rules! go {
         ($t:ident) => {{
+            let get = |s: &$t| -> St {
+                let (h, t, content, pos) = s.verif_get_state();
+                let mut hb = Vec::new();
+                for i in 0..8 {
+                    hb.extend_from_slice(&h[i / 4][i % 4].to_be_bytes());
+                }
+                St { h: hb, t0: t.0 as u128, t1: t.1 as u128, buffered: content[..pos].to_vec() }
+            };
             let mut s = $t::default();
-            let chunk: Vec<u8> = (0..(1usize << 20)).map(|i| (i as u32).wrapping_mul(2654435761).to_le_bytes()[3] ^ (i as u8)).collect();
             let sizes = [1usize << 20, 65537, 4096, 63, 1, 64, 129, 1 << 20];
             let (mut done, mut k) = (0u64, 0usize);
             while done < n {
                 let m = (sizes[k % sizes.len()] as u64).min(n - done) as usize;
-                s.update(&chunk[..m]);
+                let off = (done % PAT_PERIOD as u64) as usize;
+                s.update(&base[off..off + m]);
                 done += m as u64;
                 k += 1;
             }
+            let at_n = get(&s);
+            let at_upto = upto.map(|u| {
+                let mut c = s.clone();
+                let off = (n % PAT_PERIOD as u64) as usize;
+                c.update(&base[off..off + (u - n) as usize]);
+                get(&c)
+            });
+            s.update(tail);
+            let same_object = Some(s.finalize().to_vec());
+            Streamed { at_n, same_object, at_upto }
+        }};
+    }
+    match variant {
+        224 => go!(Blake224),
+        256 => go!(Blake256),
+        384 => go!(Blake384),
+        _ => go!(Blake512),
+    }
+}
+
+/// ONE `update` call with all of `buf`; state read back, then the same object continued with `tail`
+fn single_update(variant: u32, buf: &[u8], tail: &[u8]) -> (St, Vec<u8>) {
+    macro_rules! go {
+        ($t:ident) => {{
+            let mut s = $t::default();
+            s.update(buf);
             let (h, t, content, pos) = s.verif_get_state();
             let mut hb = Vec::new();
             for i in 0..8 {
                 hb.extend_from_slice(&h[i / 4][i % 4].to_be_bytes());
             }
-            (hb, t.0 as u128, t.1 as u128, content[..pos].to_vec())
+            let st = St { h: hb, t0: t.0 as u128, t1: t.1 as u128, buffered: content[..pos].to_vec() };
+            s.update(tail);
+            (st, s.finalize().to_vec())
         }};
     }
     match variant {
@@ -178,6 +264,20 @@ struct Case {
     json: String,
     key: Vec<u8>,
     nontrivial: bool,
+    /// what is wrong with the implementation's outcome on this case by itself (panic, digest of the wrong length)
+    problem: Option<&'static str>,
+}
+
+/// (digest bytes or empty, outcome, problem): a panic and a digest whose length is not the variant's
+/// are direct failures with the case as failing input
+fn observe(variant: u32, r: Option<Vec<u8>>) -> (Vec<u8>, &'static str, Option<&'static str>) {
+    match r {
+        None => (Vec::new(), "panic", Some("the implementation panicked on an input inside the format limits")),
+        Some(d) => {
+            let p = if d.len() != out_len(variant) { Some("the digest returned does not have the variant's length") } else { None };
+            (d, "ok", p)
+        }
+    }
 }
 
 fn content(rng: &mut Rng, style: u64, n: usize) -> Vec<u8> {
@@ -195,21 +295,30 @@ fn content(rng: &mut Rng, style: u64, n: usize) -> Vec<u8> {
 }
 
 fn digest_case(variant: u32, msg: &[u8]) -> Case {
-    let d = digest(variant, msg);
+    digest_case_with(variant, msg, guarded(|| digest(variant, msg)), "digest")
+}
+
+fn digest_case_with(variant: u32, msg: &[u8], r: Option<Vec<u8>>, kind: &str) -> Case {
+    let (d, outcome, problem) = observe(variant, r);
     let mut key = vec![0u8];
     key.extend_from_slice(&variant.to_le_bytes());
     key.extend_from_slice(msg);
     Case {
         coq: format!("BD {} {} {} {}", variant, msg.len(), nlit(msg), nlit(&d)),
         json: format!(
-            "{{\"kind\":\"digest\",\"variant\":{},\"len\":{},\"msg\":{},\"digest\":{}}}",
+            "{{\"kind\":{},\"variant\":{},\"len\":{},\"msg\":{},\"outcome\":\"{}\",\"digest_len\":{},\"expected_digest_len\":{},\"digest\":{}}}",
+            jstr(kind),
             variant,
             msg.len(),
             jstr(&hex(msg)),
+            outcome,
+            d.len(),
+            out_len(variant),
             jstr(&hex(&d))
         ),
         key,
         nontrivial: !msg.is_empty(),
+        problem,
     }
 }
 
@@ -217,7 +326,7 @@ fn digest_case(variant: u32, msg: &[u8]) -> Case {
 /// keep the Coq literals short); otherwise one `update` call per part
 fn parts_case(variant: u32, parts: &[Vec<u8>], oneshot: bool) -> Case {
     let whole: Vec<u8> = parts.concat();
-    let d = if oneshot {
+    let r = guarded(|| if oneshot {
         digest(variant, &whole)
     } else {
         macro_rules! go {
@@ -235,7 +344,8 @@ fn parts_case(variant: u32, parts: &[Vec<u8>], oneshot: bool) -> Case {
             384 => go!(Blake384),
             _ => go!(Blake512),
         }
-    };
+    });
+    let (d, outcome, problem) = observe(variant, r);
     let mut key = vec![if oneshot { 0u8 } else { 2u8 }];
     key.extend_from_slice(&variant.to_le_bytes());
     if !oneshot {
@@ -249,21 +359,31 @@ fn parts_case(variant: u32, parts: &[Vec<u8>], oneshot: bool) -> Case {
     Case {
         coq: format!("BU {} {} [{}] {}", variant, oneshot, ps.join("; "), nlit(&d)),
         json: format!(
-            "{{\"kind\":\"{}\",\"variant\":{},\"len\":{},\"parts\":[{}],\"digest\":{}}}",
+            "{{\"kind\":\"{}\",\"variant\":{},\"len\":{},\"parts\":[{}],\"outcome\":\"{}\",\"digest_len\":{},\"expected_digest_len\":{},\"digest\":{}}}",
             if oneshot { "digest-long" } else { "updates" },
             variant,
             whole.len(),
             js.join(","),
+            outcome,
+            d.len(),
+            out_len(variant),
             jstr(&hex(&d))
         ),
         key,
         nontrivial: !whole.is_empty(),
+        problem,
     }
 }
 
 fn hook_case(variant: u32, h: &[u8], t0: u128, t1: u128, buffered: &[u8], tail: &[u8]) -> Case {
-    let d = digest_from(variant, h, t0, t1, buffered, tail);
-    let mut key = vec![1u8];
+    hook_case_with(variant, h, t0, t1, buffered, tail, guarded(|| digest_from(variant, h, t0, t1, buffered, tail)), "hook", "")
+}
+
+/// `r`: the digest the implementation returned for (state; update tail; finalize) - by a fresh object the state
+/// was entered into (`hook_case`) or by the very object that reached the state by hashing (`stream` says which)
+fn hook_case_with(variant: u32, h: &[u8], t0: u128, t1: u128, buffered: &[u8], tail: &[u8], r: Option<Vec<u8>>, stream: &str, note: &str) -> Case {
+    let (d, outcome, problem) = observe(variant, r);
+    let mut key = vec![if stream.contains("same_object") { 3u8 } else { 1u8 }];
     key.extend_from_slice(&variant.to_le_bytes());
     key.extend_from_slice(h);
     key.extend_from_slice(&t0.to_le_bytes());
@@ -285,24 +405,30 @@ fn hook_case(variant: u32, h: &[u8], t0: u128, t1: u128, buffered: &[u8], tail: 
             nlit(&d)
         ),
         json: format!(
-            "{{\"kind\":\"hook\",\"variant\":{},\"h\":{},\"t0\":\"{:x}\",\"t1\":\"{:x}\",\"buffered\":{},\"tail\":{},\"digest\":{}}}",
+            "{{\"kind\":\"hook\",\"stream\":{},\"note\":{},\"variant\":{},\"h\":{},\"t0\":\"{:x}\",\"t1\":\"{:x}\",\"buffered\":{},\"tail\":{},\"outcome\":\"{}\",\"digest_len\":{},\"expected_digest_len\":{},\"digest\":{}}}",
+            jstr(stream),
+            jstr(note),
             variant,
             jstr(&hex(h)),
             t0,
             t1,
             jstr(&hex(buffered)),
             jstr(&hex(tail)),
+            outcome,
+            d.len(),
+            out_len(variant),
             jstr(&hex(&d))
         ),
         key,
         nontrivial: true,
+        problem,
     }
 }
 
 fn main() {
     let argv: Vec<String> = std::env::args().collect();
     if argv.len() < 2 || argv[1] != "blake" {
-        eprintln!("usage: h_blake blake --seed N --shards K --out DIR [--tier quick|thorough --streams all|hook --real N]");
+        eprintln!("usage: h_blake blake --seed N --shards K --out DIR [--tier quick|thorough --streams all|reduced|tiny|hook --real N --big-update 0|1 --level 0..5]");
         std::process::exit(2);
     }
     let a = Args::parse(&argv[2..]);
@@ -312,6 +438,8 @@ fn main() {
     let thorough = a.str("tier", "quick") == "thorough";
     let hook_only = a.str("streams", "all") == "hook";
     let real = a.u64("real", 0);
+    let big_update = a.u64("big-update", 0) != 0;
+    std::panic::set_hook(Box::new(|_| {}));
     // back end: 0 = whatever the CPU detection picks, 1..5 = SSE2, SSSE3, SSE4.1, AVX, AVX2 (hook H1)
     let level = a.u64("level", 0) as u8;
     #[cfg(all(cryptocorrosion_verif, not(feature = "no_simd")))]
@@ -329,14 +457,30 @@ fn main() {
     let (mut n_sweep, mut n_sparse, mut n_hook, mut n_rt, mut n_updates) = (0usize, 0usize, 0usize, 0usize, 0usize);
     let mut max_len = 0usize;
     let (mut n_real, mut real_bytes) = (0usize, 0u64);
+    let (mut n_same, mut n_big) = (0usize, 0usize);
 
-    // 0. C17: really stream up to just below 2^32 bits (512 MiB) into Blake224/256, read the state
-    //    back (the counter must be exactly the bits compressed so far), then cross the boundary
+    // 0. C17: really stream up to just below 2^32 bits (512 MiB) into Blake224/256 (which of the two comes first
+    //    rotates with the seed), read the state back (the counter must be exactly the bits compressed so far),
+    //    then cross the boundary twice: with a fresh object the read-back state is entered into, and with the
+    //    streamed object itself (a private field the hook does not expose would make the two differ)
+    let base = if real > 0 || big_update { pat_base() } else { Vec::new() };
+    let big_n: u64 = (1u64 << 29) + 64;
+    let mut chunked_at_big: Option<(u32, St)> = None;
     for k in 0..real {
-        let v = if k % 2 == 0 { 256u32 } else { 224 };
+        let v = if (k + seed) % 2 == 0 { 256u32 } else { 224 };
         let below = [64u64, 1, 129, 200, 65, 128][k as usize % 6];
         let n = (1u64 << 29) - below;
-        let (h, t0, t1, buffered) = real_stream(v, n);
+        let tail_len = below as usize + [1usize, 64, 0, 56, 120][k as usize % 5];
+        let tail = content(&mut rng, k, tail_len);
+        let upto = if big_update && k == 0 { Some(big_n) } else { None };
+        let st = match guarded(|| real_stream(v, n, &tail, upto, &base)) {
+            Some(st) => st,
+            None => {
+                direct.push(format!("{{\"kind\":\"panic while really streaming\",\"variant\":{},\"streamed\":{}}}", v, n));
+                continue;
+            }
+        };
+        let (h, t0, t1, buffered) = (st.at_n.h.clone(), st.at_n.t0, st.at_n.t1, st.at_n.buffered.clone());
         let bits = (n / 64) * 512;
         if t0 != (bits & 0xffff_ffff) as u128 || t1 != (bits >> 32) as u128 || buffered.len() as u64 != n % 64 {
             direct.push(format!(
@@ -344,11 +488,59 @@ fn main() {
                 v, n, t0, t1, buffered.len()
             ));
         }
-        let tail_len = below as usize + [1usize, 64, 0, 56, 120][k as usize % 5];
-        let tail = content(&mut rng, k, tail_len);
-        cases.push(hook_case(v, &h, t0, t1, &buffered, &tail));
+        let note = format!("state read back after really streaming {} bytes (byte i = i mod 251)", n);
+        let fresh = guarded(|| digest_from(v, &h, t0, t1, &buffered, &tail));
+        if fresh != st.same_object {
+            direct.push(format!(
+                "{{\"kind\":\"the streamed object continued with the tail and a fresh object entered with its read-back state return different digests\",\"variant\":{},\"streamed\":{},\"tail\":{},\"same_object\":{},\"fresh_object_from_state\":{}}}",
+                v, n, jstr(&hex(&tail)), jstr(&hex(st.same_object.as_deref().unwrap_or(&[]))), jstr(&hex(fresh.as_deref().unwrap_or(&[])))
+            ));
+        }
+        cases.push(hook_case_with(v, &h, t0, t1, &buffered, &tail, fresh, "real_stream", &note));
+        cases.push(hook_case_with(v, &h, t0, t1, &buffered, &tail, st.same_object.clone(), "real_stream_same_object", &note));
         n_real += 1;
+        n_same += 1;
         real_bytes += n;
+        if let Some(s2) = st.at_upto {
+            chunked_at_big = Some((v, s2));
+            real_bytes += big_n - n;
+        }
+    }
+    // 0b. C17: ONE update call of 2^29 + 64 bytes (the 2^32-bit carry happens inside a single call; a run-based
+    //     count such as `(nblocks * 64) * 8` in the counter word wraps there): the state after it must be the
+    //     state reached by the chunked stream above, the counter the closed form, and the digest continued
+    //     from it (same object, and a fresh object from the read-back state) is compared with model and spec
+    if big_update {
+        let (v, reference) = match chunked_at_big.take() {
+            Some(x) => x,
+            None => {
+                let v = if seed % 2 == 0 { 256u32 } else { 224 };
+                let st = real_stream(v, big_n - 128, &[], Some(big_n), &base);
+                real_bytes += big_n;
+                (v, st.at_upto.unwrap())
+            }
+        };
+        let buf = pat_buf(&base, big_n as usize);
+        let tail = content(&mut rng, 3, 77);
+        match guarded(|| single_update(v, &buf, &tail)) {
+            None => direct.push(format!("{{\"kind\":\"panic in one update call of 2^29+64 bytes\",\"variant\":{}}}", v)),
+            Some((st, same)) => {
+                let bits = (big_n / 64) * 512;
+                if st != reference || st.t0 != (bits & 0xffff_ffff) as u128 || st.t1 != (bits >> 32) as u128 || !st.buffered.is_empty() {
+                    direct.push(format!(
+                        "{{\"kind\":\"state after ONE update call of 2^29+64 bytes differs from the state after the same bytes in many calls (or from the closed form t = 2^32 + 512 bits)\",\"variant\":{},\"bytes\":{},\"one_call\":{{\"h\":{},\"t0\":\"{:x}\",\"t1\":\"{:x}\",\"pos\":{}}},\"many_calls\":{{\"h\":{},\"t0\":\"{:x}\",\"t1\":\"{:x}\",\"pos\":{}}}}}",
+                        v, big_n, jstr(&hex(&st.h)), st.t0, st.t1, st.buffered.len(),
+                        jstr(&hex(&reference.h)), reference.t0, reference.t1, reference.buffered.len()
+                    ));
+                }
+                let note = format!("state read back after ONE update call of {} bytes (byte i = i mod 251)", big_n);
+                let fresh = guarded(|| digest_from(v, &st.h, st.t0, st.t1, &st.buffered, &tail));
+                cases.push(hook_case_with(v, &st.h, st.t0, st.t1, &st.buffered, &tail, fresh, "single_update_2^29+64", &note));
+                cases.push(hook_case_with(v, &st.h, st.t0, st.t1, &st.buffered, &tail, Some(same), "single_update_2^29+64_same_object", &note));
+                n_big += 1;
+                real_bytes += big_n;
+            }
+        }
     }
 
     if !hook_only {
@@ -499,17 +691,16 @@ fn main() {
         for mode in 0..3u8 {
             let len = [0usize, block - 9, 2 * block + 1][mode as usize];
             let msg = content(&mut rng, mode as u64 + 1, len);
-            let d = digest_after_reset(v, &msg, mode);
-            let mut c = digest_case(v, &msg);
-            let plain = digest(v, &msg);
-            if d != plain {
+            let d = guarded(|| digest_after_reset(v, &msg, mode));
+            let plain = guarded(|| digest(v, &msg));
+            if d != plain || d.is_none() {
                 direct.push(format!(
-                    "{{\"kind\":\"reset of an object far into a message\",\"variant\":{},\"mode\":{},\"len\":{},\"digest\":{},\"fresh_digest\":{}}}",
-                    v, mode, len, jstr(&hex(&d)), jstr(&hex(&plain))
+                    "{{\"kind\":\"reset of an object far into a message\",\"variant\":{},\"mode\":{},\"len\":{},\"msg\":{},\"digest\":{},\"fresh_digest\":{}}}",
+                    v, mode, len, jstr(&hex(&msg)), jstr(&hex(d.as_deref().unwrap_or(&[]))), jstr(&hex(plain.as_deref().unwrap_or(&[])))
                 ));
             }
-            c.coq = format!("BD {} {} {} {}", v, msg.len(), nlit(&msg), nlit(&d));
-            cases.push(c);
+            // the case (Coq literal AND replay JSON) carries the digest of the reset object
+            cases.push(digest_case_with(v, &msg, d, ["digest after reset of an object far into a message", "digest after finalize_fixed_reset of an object far into a message", "digest after finalize_reset of an object far into a message"][mode as usize]));
         }
         // the hook itself: get_state/set_state round trip on naturally reached states
         for _ in 0..(if thorough { 40 } else { 6 }) {
@@ -517,12 +708,23 @@ fn main() {
             let pre = content(&mut rng, 0, l1);
             let tail = content(&mut rng, 0, l2);
             n_rt += 1;
-            if let Some(f) = hook_roundtrip(v, &pre, &tail) {
-                direct.push(f);
+            match guarded(|| hook_roundtrip(v, &pre, &tail)) {
+                Some(Some(f)) => direct.push(f),
+                Some(None) => {}
+                None => direct.push(format!("{{\"kind\":\"hook-roundtrip\",\"outcome\":\"panic\",\"variant\":{},\"pre\":{},\"tail\":{}}}", v, jstr(&hex(&pre)), jstr(&hex(&tail)))),
             }
         }
     }
 
+    let (mut n_panics, mut n_badlen) = (0usize, 0usize);
+    for c in &cases {
+        if let Some(p) = c.problem {
+            if p.contains("panicked") { n_panics += 1 } else { n_badlen += 1 }
+            if direct.len() < 12 {
+                direct.push(format!("{{\"kind\":{},\"case\":{}}}", jstr(p), c.json));
+            }
+        }
+    }
     let mut distinct = std::collections::HashSet::new();
     for c in &cases {
         if c.nontrivial {
@@ -550,7 +752,7 @@ fn main() {
         samples.push(c.json.clone());
     }
     println!(
-        "{{\"evaluations\":{},\"distinct_nontrivial\":{},\"length_sweep\":{},\"sparse_long\":{},\"multi_update\":{},\"max_len\":{},\"hook_state_cases\":{},\"hook_roundtrips\":{},\"real_stream_cases\":{},\"really_streamed_bytes\":{},\"backend_level\":{},\"variants\":[224,256,384,512],\"direct_failures\":[{}],\"samples\":[{}]}}",
+        "{{\"evaluations\":{},\"distinct_nontrivial\":{},\"length_sweep\":{},\"sparse_long\":{},\"multi_update\":{},\"max_len\":{},\"hook_state_cases\":{},\"hook_roundtrips\":{},\"real_stream_cases\":{},\"real_stream_same_object_cases\":{},\"single_update_of_2_29_plus_64_bytes\":{},\"really_streamed_bytes\":{},\"digest_lengths_checked\":{},\"digests_of_wrong_length\":{},\"panics\":{},\"backend_level\":{},\"variants\":[224,256,384,512],\"direct_failures\":[{}],\"samples\":[{}]}}",
         cases.len(),
         distinct.len(),
         n_sweep,
@@ -560,7 +762,12 @@ fn main() {
         n_hook,
         n_rt,
         n_real,
+        n_same,
+        n_big,
         real_bytes,
+        cases.len(),
+        n_badlen,
+        n_panics,
         level,
         direct.join(","),
         samples.join(",")
